@@ -990,8 +990,12 @@ fn panic_history<S: Subject>(seed: u64, steps: usize, nkeys: i32) -> Result<u64,
         for (o, t) in script[..i].iter() { twin.apply(o, *t); }
         let mut twin_b = S::fresh(seed);
         for (o, t) in script[..i].iter() { twin_b.apply(o, *t); }
+        // damage that is there without any panic is not C18's: the history is explored only while the collection that never saw a
+        // panic is valid before and after the step
+        if twin_b.valid().is_err() { return Ok(injections); }
         let before = twin_b.contents(time, nkeys);
         cb_arm(1 << 40); twin.apply(&op, time); let n = (1i64 << 40) - CBFUSE.with(|f| f.get()); cb_arm(-1);
+        if twin.valid().is_err() { return Ok(injections); }
         let after = twin.contents(time, nkeys);
         for j in 0..n {
             let mut s = S::fresh(seed);
@@ -1002,7 +1006,7 @@ fn panic_history<S: Subject>(seed: u64, steps: usize, nkeys: i32) -> Result<u64,
             cb_arm(-1);
             if r.is_ok() { continue; } // the operation made fewer callbacks on this run (cannot happen: deterministic)
             let lp = LASTPANIC.with(|l| l.borrow().clone());
-            if !lp.contains("injected panic") { return Err(format!("[C18,C10] {}then {:?}@t{} with a panic injected at callback #{} -> the real code panicked by itself: {}", show(i), op, time, j, lp)); }
+            if !lp.contains("injected panic") { return Err(format!("[C10] {}then {:?}@t{} with a panic injected at callback #{} -> the real code panicked by itself: {}", show(i), op, time, j, lp)); }
             injections += 1;
             let ctx = format!("{}then {:?}@t{} with a panic injected at callback #{} of {}", show(i), op, time, j, n);
             if let Err(e) = s.valid() { return Err(format!("[C18] {} -> after catch_unwind the collection is not valid: {}", ctx, e)); }
@@ -1016,6 +1020,7 @@ fn panic_history<S: Subject>(seed: u64, steps: usize, nkeys: i32) -> Result<u64,
             for (q, (o, t)) in script.iter().enumerate().skip(resume) {
                 if let Err(p) = guarded(&mut s, o, *t) { return Err(format!("[C18] {} -> continuing with {:?}@t{} the real code panicked: {}", ctx, o, t, p)); }
                 if q > i { t2.apply(o, *t); }
+                if t2.valid().is_err() { return Ok(injections); } // broken without any panic: not C18's
                 if let Err(e) = s.valid() { return Err(format!("[C18] {} -> continuing with {:?}@t{}: the collection is not valid: {}", ctx, o, t, e)); }
                 last_t = *t;
             }
@@ -1176,7 +1181,7 @@ fn main() {
                 match std::panic::catch_unwind(|| explore_panic(w, seeds, steps)) {
                     Ok(Ok((h, i))) => { total.0 += h; total.1 += i; }
                     Ok(Err(e)) => { println!("{{\"ok\": false, \"counterexample\": {:?}}}", e); std::process::exit(1); }
-                    Err(_) => { let h = HIST.lock().map(|g| g.clone()).unwrap_or_default(); println!("{{\"ok\": false, \"counterexample\": {:?}}}", format!("[C18] {} -> the real code panicked outside the injected callback: {}", h, LASTPANIC.with(|l| l.borrow().clone()))); std::process::exit(1); }
+                    Err(_) => { let h = HIST.lock().map(|g| g.clone()).unwrap_or_default(); println!("{{\"ok\": false, \"counterexample\": {:?}}}", format!("[C10] {} -> the real code panicked outside the injected callback: {}", h, LASTPANIC.with(|l| l.borrow().clone()))); std::process::exit(1); }
                 }
             }
             println!("{{\"ok\": true, \"histories\": {}, \"injections\": {}}}", total.0, total.1);
